@@ -13,10 +13,27 @@ def make_input(rng, n):
     return "".join(f"a={rng.choice(keys)},b={rng.choice(keys)},i={i},x={rng.randint(0, 99)}\n" for i in range(1, n + 1)).encode()
 
 
-def chains(tmpdir):
-    """(name, argv-after-main-flags, needs_input, main_flags, class_if_known)"""
+def make_wide_input(rng, n, width=14):
+    return "".join(",".join(f"f{j}={rng.randint(0, 9)}{i}" for j in range(1, width + 1)) + "\n" for i in range(1, n + 1)).encode()
+
+
+def chains(tmpdir, n=120):
+    """(name, argv-after-main-flags, needs_input (True | "wide"), main_flags, class_if_known)"""
     t = str(tmpdir)
+    late = str(max(n - 10, 2))
     return [
+        # early-exit verbs whose flags meet when the reader has already reached end of input
+        ("head-late-then-head", ["head", "-n", late, "then", "head", "-n", "1"], True, [], None),
+        ("head-late-then-cat-head-head", ["head", "-n", late, "then", "cat", "then", "head", "-n", "2", "then", "head", "-n", "1"], True, [], None),
+        ("head-late-g-then-head", ["head", "-n", late, "then", "head", "-n", "1", "-g", "a", "then", "head", "-n", "2"], True, [], None),
+        # records wide enough for the lazily built key index (hash-records): renames and re-references of old names
+        ("wide-rename-cut", ["rename", "f3,g3", "then", "cut", "-x", "-f", "f3"], "wide", [], None),
+        ("wide-rename-put-old", ["rename", "f3,g3", "then", "put", "$f3 = \"new\""], "wide", [], None),
+        ("wide-rename-swap", ["rename", "f2,tmp", "then", "rename", "f5,f2", "then", "rename", "tmp,f5"], "wide", [], None),
+        ("wide-rename-present", ["rename", "f7,g7", "then", "put", "$p = is_present($f7) . \":\" . is_present($g7)"], "wide", [], None),
+        ("wide-reorder-unset", ["reorder", "-e", "-f", "f2", "then", "put", "unset $f9; $f9 = $f2 . \"x\""], "wide", [], None),
+        ("wide-positional-rename", ["put", "$[[1]] = \"zz\"; $q = is_present($f1)"], "wide", [], None),
+        ("wide-sort-within", ["sort-within-records", "-r", "then", "rename", "-r", "^f1(.)$,h\\1", "then", "cut", "-f", "h0,f1,h3"], "wide", [], None),
         ("cat", ["cat"], True, [], None),
         ("head", ["head", "-n", "4"], True, [], None),
         ("head-g", ["head", "-n", "2", "-g", "a"], True, [], None),
@@ -62,8 +79,10 @@ def configs(ctx):
     return base + extra + more
 
 
-def run_cfg(ctx, chain, cfg, inp, tmpdir, trace=False, tag=0):
+def run_cfg(ctx, chain, cfg, inp, tmpdir, trace=False, tag=0, wide=b""):
     name, argv, needs_input, mflags, _ = chain
+    if needs_input == "wide":
+        inp = wide
     flags, env, sched = cfg
     e = dict(env)
     if sched is not None:
@@ -119,10 +138,11 @@ def run(ctx):
         cfgs = configs(ctx)
         from concurrent.futures import ThreadPoolExecutor
         pool = ThreadPoolExecutor(max_workers=8)
-        for chain in chains(tmpdir):
+        wide = make_wide_input(ctx.rng, max(n // 3, 20))
+        for chain in chains(tmpdir, n):
             ref = None
             seeds = [ctx.rng.randrange(10 ** 9) for _ in cfgs]
-            futs = [pool.submit(run_cfg, ctx, chain, cfg, inp, tmpdir, (ci % 3 == 0), seeds[ci]) for ci, cfg in enumerate(cfgs)]
+            futs = [pool.submit(run_cfg, ctx, chain, cfg, inp, tmpdir, (ci % 3 == 0), seeds[ci], wide) for ci, cfg in enumerate(cfgs)]
             for ci, cfg in enumerate(cfgs):
                 st, out, err, tr = futs[ci].result()
                 ctx.count((chain[0], cfg[0], cfg[1], cfg[2]))
